@@ -292,6 +292,32 @@ func rangeFact(t types.Type, x string) string {
 	return and(app("<=", bignum(lo), x), app("<=", x, bignum(hi)))
 }
 
+// wrapFrom: like wrapTo but uses the source type, when known, to avoid mod:
+// same-width sign changes are a single ite.
+func wrapFrom(dst, src types.Type, x string) string {
+	dlo, dhi, ok1 := intRange(dst)
+	if src != nil {
+		slo, shi, ok2 := intRange(src)
+		if ok1 && ok2 {
+			if dlo.Cmp(slo) <= 0 && dhi.Cmp(shi) >= 0 {
+				return x
+			}
+			dw := new(big.Int).Sub(dhi, dlo)
+			sw := new(big.Int).Sub(shi, slo)
+			if dw.Cmp(sw) == 0 {
+				m := new(big.Int).Add(dw, big.NewInt(1))
+				if dlo.Sign() == 0 {
+					// signed -> unsigned
+					return ite(app(">=", x, "0"), x, app("+", x, m.String()))
+				}
+				// unsigned -> signed
+				return ite(app("<=", x, bignum(dhi)), x, app("-", x, m.String()))
+			}
+		}
+	}
+	return wrapTo(dst, x)
+}
+
 // wrapTo converts mathematical integer x to the value a Go conversion to type t yields.
 func wrapTo(t types.Type, x string) string {
 	lo, hi, ok := intRange(t)
